@@ -20,7 +20,7 @@ The independent implementation is the reference reader/writer `Spec/C06Reader.le
 Interoperability with the real library is a correspondence claim checked by the run
 (`harness/src/bin/c06.rs`, `Drv/C06.lean`); the five ways in which the unchanged tree violates it
 have kernel-checked witnesses below (`C06_witness_*`) on small models of the library's behaviour
-(`libReadMember`, `libReadStream`), each reproduced on the real code by a corpus request.
+(`libReadMemberOld`, `libReadStream`), each reproduced on the real code by a corpus request.
 -/
 namespace OxiVerif.C06
 open OxiVerif.Crypto OxiVerif.Spec.Syntax OxiVerif.C05
@@ -276,41 +276,59 @@ example : ∃ e : Enc, e.r = 5 ∧ e.u = alg8U 5 [0x70] (List.replicate 8 1) (Li
 /-! ## the five deviations of the unchanged tree (small models of the library's behaviour; each is
 reproduced on the real code by a request in corpus/C06) -/
 
-/-- `get_compressed_object`: an object taken out of an object stream goes through
-`decrypt_object_if_needed` again -/
-def libReadMember (f : NBytes → Option NBytes) (o : Obj) : Option Obj := decTree f o
+/-- `get_compressed_object` before the repair: an object taken out of an object stream went
+through `decrypt_object_if_needed` again -/
+def libReadMemberOld (f : NBytes → Option NBytes) (o : Obj) : Option Obj := decTree f o
+/-- `get_compressed_object` now: the member is handed out as parsed from the decrypted stream -/
+def libReadMember (_f : NBytes → Option NBytes) (o : Obj) : Option Obj := some o
 /-- the reference: members of an object stream are not decrypted individually (§7.6.1) -/
 def refReadMember (_f : NBytes → Option NBytes) (o : Obj) : Option Obj := some o
 
-/-- F2: a cipher pair that round-trips, and an object-stream member the library does not hand out
-as written. -/
-theorem C06_witness_double_decryption :
-    ∃ (f : NBytes → Option NBytes) (g : NBytes → NBytes), (∀ b, f (g b) = some b) ∧
-      libReadMember f (.dict [([84], .str [1])]) ≠ refReadMember f (.dict [([84], .str [1])]) := by
-  refine ⟨fun b => some (b.map (· - 1)), fun b => b.map (· + 1), fun b => by simp [List.map_map, Function.comp_def], ?_⟩
-  simp [libReadMember, refReadMember, decTree, decEntries]
+/-- the library agrees with the reference on every object-stream member -/
+theorem C06_member_not_decrypted (f : NBytes → Option NBytes) (o : Obj) :
+    libReadMember f o = refReadMember f o := rfl
 
-/-- `decrypt_object_if_needed` on a stream: the data is always decrypted (unless the STREAM
-dictionary has /StmF /Identity), the dictionary is returned as read -/
-def libReadStream (f : NBytes → Option NBytes) (dict : Obj) (data : NBytes) : Option (Obj × NBytes) :=
+/-- Regression statement (F2, repaired): a cipher pair that round-trips, and an object-stream
+member the unrepaired reader did not hand out as written. -/
+theorem C06_witness_double_decryption_old :
+    ∃ (f : NBytes → Option NBytes) (g : NBytes → NBytes), (∀ b, f (g b) = some b) ∧
+      libReadMemberOld f (.dict [([84], .str [1])]) ≠ refReadMember f (.dict [([84], .str [1])]) := by
+  refine ⟨fun b => some (b.map (· - 1)), fun b => b.map (· + 1), fun b => by simp [List.map_map, Function.comp_def], ?_⟩
+  simp [libReadMemberOld, refReadMember, decTree, decEntries]
+
+/-- `decrypt_object_if_needed` on a stream before the repair: the data was always decrypted
+(unless the STREAM dictionary has /StmF /Identity), the dictionary returned as read -/
+def libReadStreamOld (f : NBytes → Option NBytes) (dict : Obj) (data : NBytes) : Option (Obj × NBytes) :=
   (f data).map fun d => (dict, d)
 
-/-- F3: with `/EncryptMetadata false` the reference leaves a `/Type /Metadata` stream alone
-(`streamMethod = 0`), the library decrypts it. -/
-theorem C06_witness_clear_metadata (e : Enc) (he : e.em = false) :
+/-- … and now: `clearMeta` = `!encrypt_metadata() && /Type /Metadata` leaves the stream alone; the
+dictionary is still returned as read (F4, open) -/
+def libReadStream (clearMeta : Bool) (f : NBytes → Option NBytes) (dict : Obj) (data : NBytes) : Option (Obj × NBytes) :=
+  if clearMeta then some (dict, data) else libReadStreamOld f dict data
+
+/-- the library leaves a clear metadata stream alone, like the reference (`streamMethod = 0`) -/
+theorem C06_clear_metadata_left_alone (e : Enc) (he : e.em = false) (f : NBytes → Option NBytes) (data : NBytes) :
     streamMethod e (.dict [(kw "Type", .name (kw "Metadata"))]) = 0 ∧
-    ∃ f : NBytes → Option NBytes, libReadStream f (.dict [(kw "Type", .name (kw "Metadata"))]) [60] ≠
+    libReadStream true f (.dict [(kw "Type", .name (kw "Metadata"))]) data =
+      some (.dict [(kw "Type", .name (kw "Metadata"))], data) := by
+  refine ⟨by simp [streamMethod, he, oget, entriesOf, dget, isName, kw], rfl⟩
+
+/-- Regression statement (F3, repaired): with `/EncryptMetadata false` the reference leaves a
+`/Type /Metadata` stream alone (`streamMethod = 0`), the unrepaired reader decrypted it. -/
+theorem C06_witness_clear_metadata_old (e : Enc) (he : e.em = false) :
+    streamMethod e (.dict [(kw "Type", .name (kw "Metadata"))]) = 0 ∧
+    ∃ f : NBytes → Option NBytes, libReadStreamOld f (.dict [(kw "Type", .name (kw "Metadata"))]) [60] ≠
       some (.dict [(kw "Type", .name (kw "Metadata"))], [60]) := by
   refine ⟨by simp [streamMethod, he, oget, entriesOf, dget, isName, kw], fun b => some (b.map (· + 1)), ?_⟩
-  simp [libReadStream]
+  simp [libReadStreamOld]
 
-/-- F4: a string in a stream dictionary is encrypted by the reference writer; the library returns
-the dictionary as read, i.e. the ciphertext. -/
+/-- F4 (open): a string in a stream dictionary is encrypted by the reference writer; the library
+returns the dictionary as read, i.e. the ciphertext. -/
 theorem C06_witness_stream_dict_string :
     ∃ (f : NBytes → Option NBytes) (g : NBytes → NBytes), (∀ b, f (g b) = some b) ∧
-      (libReadStream f (encTree g (.dict [([78], .str [1])])) (g [2])).map (·.1) ≠ some (.dict [([78], .str [1])]) := by
+      (libReadStream false f (encTree g (.dict [([78], .str [1])])) (g [2])).map (·.1) ≠ some (.dict [([78], .str [1])]) := by
   refine ⟨fun b => some (b.map (· - 1)), fun b => b.map (· + 1), fun b => by simp [List.map_map, Function.comp_def], ?_⟩
-  simp [libReadStream, encTree, encEntries]
+  simp [libReadStream, libReadStreamOld, encTree, encEntries]
 
 /-- F1: `/Filter /Crypt` without `/DecodeParms` is the Identity crypt filter — the reference reader
 does not decrypt such a stream, whatever `/StmF` says; the library writes it on encrypted data. -/
